@@ -18,4 +18,5 @@ CurrentDev == {"D_ClassOffPushesNone"}
 Both == {TRUE, FALSE}
 Varied == {"cpp_class", "cpp_attr", "cpp_member", "function"}
 Flags == {[f \in FlagKinds |-> IF f \in Varied THEN b[f] ELSE TRUE] : b \in [Varied -> BOOLEAN]}
+         \cup {[f \in FlagKinds |-> FALSE]}        \* and everything off at once
 =============================================================================
